@@ -236,7 +236,6 @@ class TimeBase(np.ndarray):
 
         return self.jd > other.jd
 
-    @lru_cache()
     def to_scale(self, scale: str) -> "TimeBase":
         """Convert to a different scale
  
@@ -248,6 +247,12 @@ class TimeBase(np.ndarray):
         Returns:
             TimeBase representing the same times in the new scale.
         """
+        # The result has the format of self, so the format is part of the memoization key (self is compared on jd only)
+        return self._to_scale(scale, self.fmt)
+
+    @lru_cache()
+    def _to_scale(self, scale: str, fmt: str) -> "TimeBase":
+        """Convert to a different scale, see to_scale"""
         # Don't convert if not necessary
         if scale == self.scale:
             return self
